@@ -206,7 +206,7 @@ def check_copies(ctx):
         ctx.ob('R20.4-copies', meth, not problems, ctx.loc('simulator', f),
                '%s carries all %d declared attributes to the new queue (%s) and leaves self unchanged'
                % (meth, len(attrs), 'same contents' if meth == 'copy' else 'zero contents, same shape'), '; '.join(problems))
-    f = ctx.fn('simulator:%s.binomial_partition' % CLS)
+    f = util.inline_pure_temps(ctx.fn('simulator:%s.binomial_partition' % CLS))
     problems = []
     p = f.args.args[1].arg
     simple = [(src(s.targets[0]), s.value) for s in f.body if isinstance(s, ast.Assign) and isinstance(s.targets[0], ast.Name)] + \
